@@ -220,7 +220,8 @@ fn process_dir(
                 }
                 let mut matcher_io = matchers::MatcherIO::new(deps);
 
-                let new_dir = entry.path().parent().map(|x| x.to_path_buf());
+                // A root directory has no parent; commands for it run in itself.
+                let new_dir = Some(entry.path().parent().unwrap_or(entry.path()).to_path_buf());
                 if new_dir != current_dir {
                     if let Some(dir) = current_dir.take() {
                         matcher.finished_dir(dir.as_path(), &mut matcher_io);
